@@ -1062,6 +1062,18 @@ impl St {
                 need(a, 1)?;
                 Ok(envops::dump(&parse_path(a[0])?, &self.scratch))
             }
+            // `oracle xxh3 DATA DIGEST`: a hint for the model side only
+            "oracle" => Ok("ok".to_string()),
+            // `digest A DATA` -> `ok <hex digest>`: the digest ssri computes (oracle for xxh3, which has
+            // no independent implementation on the model side)
+            "digest" => {
+                need(a, 2)?;
+                let algo: ssri::Algorithm = a[0].parse().map_err(|_| Bad::Line)?;
+                let d = parse_bytes(a[1])?;
+                let sri = ssri::IntegrityOpts::new().algorithm(algo).chain(&d).result();
+                let (_, hexd) = sri.to_hex();
+                Ok(format!("ok x{hexd}"))
+            }
 
             _ => Err(Bad::Line),
         }
